@@ -204,6 +204,8 @@ type ExprCfg struct {
 	Arith      bool
 	Compare    bool
 	HostileInt bool // indices / slice bounds from the hostile palette
+	NoRoot     bool // never use $ (for expressions that are re-rooted)
+	NoFreeVar  bool // never reference an unbound variable
 }
 
 var CoreCfg = ExprCfg{MaxDepth: 3, MaxSteps: 5, Compare: true, Let: true}
@@ -348,7 +350,7 @@ func (g *G) head(cur jv.Val, depth int) (ast.Head, jv.Val) {
 		return ast.Head{Kind: ast.HImplicit}, cur
 	case k == 18:
 		return ast.Head{Kind: ast.HCurrent}, cur
-	case k == 19:
+	case k == 19 && !g.Cfg.NoRoot:
 		return ast.Head{Kind: ast.HRoot}, g.Root
 	case k == 20:
 		v := Value(t, DocCfg{MaxDepth: 2, MaxFan: 3}, 0)
@@ -370,7 +372,7 @@ func (g *G) head(cur jv.Val, depth int) (ast.Head, jv.Val) {
 	case k == 25 && len(g.vars) > 0:
 		v := g.vars[rapid.IntRange(0, len(g.vars)-1).Draw(t, "varref")]
 		return ast.Head{Kind: ast.HVar, Name: v.name}, v.val
-	case k == 26 && g.Cfg.Let && Chance(t, "freevar", 1, 8):
+	case k == 26 && g.Cfg.Let && !g.Cfg.NoFreeVar && Chance(t, "freevar", 1, 8):
 		return ast.Head{Kind: ast.HVar, Name: "q"}, jv.VNull()
 	case k == 27 && g.Cfg.Funcs && depth < g.Cfg.MaxDepth:
 		c := g.callHead(cur, depth)
